@@ -302,6 +302,8 @@ def uf(name, *sorts):
 def seq_sort(elem):
     if elem == "bool":
         return z3.SeqSort(z3.BoolSort())
+    if elem in ("str", "bytes_elem"):
+        return z3.SeqSort(z3.SeqSort(z3.IntSort()))  # list of strings / list of byte strings
     return z3.SeqSort(z3.IntSort())
 
 
@@ -360,6 +362,8 @@ def elem_kind_of(pyval):
         py = "list" if isinstance(pyval, list) else "tuple"
         if len(pyval) == 0:
             return "int", py
+        if all(isinstance(e, str) or (isinstance(e, SSeq) and e.py == "str") for e in pyval):
+            return "str", py
         if all(isinstance(e, (bool, SBool)) for e in pyval):
             return "bool", py
         if all(isinstance(e, (int, SInt, SBool)) for e in pyval):
@@ -380,6 +384,8 @@ def to_seq(x, elem=None, py=None):
     srt = seq_sort(k)
     if isinstance(x, str):
         items = [z3.IntVal(ord(c)) for c in x]
+    elif k == "str":
+        items = [to_seq(e).t for e in x]
     elif k == "bool":
         items = [_zb(e) for e in x]
     else:
@@ -501,8 +507,17 @@ def _py_group(p):
     return {"bytes": "b", "bytearray": "b", "str": "s", "list": "l", "tuple": "t"}[p]
 
 
+def _coerce_pair(a, b):
+    """to_seq both operands; a concrete empty sequence takes the element sort of the other side"""
+    if not is_sym(a) and len(a) == 0 and isinstance(b, SSeq):
+        return SSeq(z3.Empty(b.t.sort()), b.elem, b.py), b
+    if not is_sym(b) and len(b) == 0 and isinstance(a, SSeq):
+        return a, SSeq(z3.Empty(a.t.sort()), a.elem, a.py)
+    return to_seq(a), to_seq(b)
+
+
 def seq_eq(a, b):
-    sa, sb = to_seq(a), to_seq(b)
+    sa, sb = _coerce_pair(a, b)
     if _py_group(sa.py) != _py_group(sb.py):
         # bytes vs bytearray compare equal by content in Python; list vs tuple / bytes vs str never
         return False
@@ -514,7 +529,7 @@ def seq_eq(a, b):
 def concat(a, b):
     if not is_sym(a) and not is_sym(b):
         return a + b
-    sa, sb = to_seq(a), to_seq(b)
+    sa, sb = _coerce_pair(a, b)
     if (sa.elem == "bool") != (sb.elem == "bool"):
         raise EngineError("concat of bool list with int list")
     return SSeq(z3.Concat(sa.t, sb.t), sa.elem, sa.py)
@@ -587,15 +602,54 @@ def nth(s, i):
     if ss.origin is not None:
         base, off, _ln = ss.origin
         return nth(base, off + i)
+    # nth over a concatenation: resolve the part when the path condition decides it
+    if ENGINE is not None and z3.is_app_of(ss.t, z3.Z3_OP_SEQ_CONCAT):
+        r = _nth_concat(ss, i)
+        if r is not None:
+            return r
     e = ss.t[_zi(i)]
     if ENGINE is not None:
         if ss.elem == "byte":
-            # type invariant of bytes objects, instantiated at the access
-            ENGINE.pc.append(z3.And(e >= 0, e < 256))
+            # type invariant of bytes objects, instantiated at the access (once per term)
+            ENGINE.byte_fact(e)
         ENGINE.on_nth(ss, i)
     if ss.elem == "bool":
         return SBool(e)
+    if ss.elem == "str":
+        return SSeq(e, "char", "str")
     return SInt(e)
+
+
+def _flatten_concat(t):
+    if z3.is_app_of(t, z3.Z3_OP_SEQ_CONCAT):
+        out = []
+        for ch in t.children():
+            out.extend(_flatten_concat(ch))
+        return out
+    return [t]
+
+
+def _nth_concat(ss, i):
+    parts = _flatten_concat(ss.t)
+    off = 0
+    for n, part in enumerate(parts):
+        P = SSeq(part, ss.elem, ss.py)
+        ln = 1 if z3.is_app_of(part, z3.Z3_OP_SEQ_UNIT) else L(P)
+        last = n == len(parts) - 1
+        rel = i - off
+        if last or known(rel < ln, 300):
+            if n == 0 or known(rel >= 0, 300):
+                if z3.is_app_of(part, z3.Z3_OP_SEQ_UNIT):
+                    e = part.arg(0)
+                    if ss.elem == "str":
+                        return SSeq(e, "char", "str")
+                    return SBool(e) if ss.elem == "bool" else SInt(e)
+                return nth(P, rel)
+            return None
+        if not known(rel >= ln, 300):
+            return None
+        off = off + ln
+    return None
 
 
 def slice_(s, lo, hi, step=None):
@@ -924,3 +978,40 @@ def any_true_of(c, bs):
     from .builtins_model import any_true
 
     return any_true(c.eng, bs)
+
+
+def strip_prefix(cur, prev):
+    """cur == prev ++ rest structurally (flattened concatenations): return rest, else None"""
+    if not is_sym(cur):
+        if not is_sym(prev) and bytes(cur[: len(prev)]) == bytes(prev):
+            return cur[len(prev):]
+        return None
+    a = _flatten_concat(cur.t)
+    b = _flatten_concat(to_seq(prev).t) if (is_sym(prev) or len(prev)) else []
+    if len(b) > len(a):
+        return None
+    for x, y in zip(a, b):
+        if not x.eq(y):
+            return None
+    rest = a[len(b):]
+    if not rest:
+        return b"" if cur.py in ("bytes", "bytearray") else SSeq(z3.Empty(cur.t.sort()), cur.elem, cur.py)
+    t = rest[0] if len(rest) == 1 else z3.Concat(*rest)
+    return SSeq(t, cur.elem, cur.py)
+
+
+def cat(*parts):
+    """concatenation of several sequences"""
+    parts = [p for p in parts]
+    if not any(is_sym(p) for p in parts):
+        out = parts[0]
+        for p in parts[1:]:
+            out = out + p
+        return out
+    ss = [to_seq(p) for p in parts]
+    ss = [x for x in ss if not z3.is_app_of(x.t, z3.Z3_OP_SEQ_EMPTY)]
+    if not ss:
+        return to_seq(parts[0])
+    if len(ss) == 1:
+        return ss[0]
+    return SSeq(z3.Concat(*[x.t for x in ss]), ss[0].elem, ss[0].py)
